@@ -306,6 +306,11 @@ def gen_pool(ctx, big):
         op.padding = a.NpuPadding(0, 0, 0, 0)
         ih = (oh - 1) * op.kernel.stride_y + kdh
         iw = (ow - 1) * op.kernel.stride_x + kdw
+    if ih > 65536 or iw > 65536:
+        # the IFM tile registers hold at most 65536 rows / columns: fall back to a 1x1 window
+        op.kernel = a.NpuKernel(1, 1)
+        op.padding = a.NpuPadding(0, 0, 0, 0)
+        ih, iw = oh, ow
     ih, iw = maybe_upscale(rng, op, ih, iw)
     od = rand_depth(rng, big)
     idp = od
